@@ -97,11 +97,13 @@ Record sess := { local : st; rdisc : N }.
 
 Definition init (cfg_rdisc : N) : sess := {| local := Down; rdisc := cfg_rdisc |}.
 
-(** Mapping of a received State to the fsm event used by [Session.Run].
-    A received AdminDown takes the session Down (same effect as the detection
-    timer), see the fix: commit in /repo. *)
+(** Mapping of a received State to the fsm event used by [Session.Run]:
+    the received state is fed into the state machine unchanged
+    ([s.transition(ctx, event(s.remoteState))]).  For a received AdminDown this is
+    the genuine defect recorded as known finding C16/recv-admindown: the local
+    session enters AdminDown, which only EvAdminUp (never generated) leaves. *)
 Definition recv_event (rx : st) : ev :=
-  match rx with AdminDown => EvTimer | Down => EvDown | Init => EvInit | Up => EvUp end.
+  match rx with AdminDown => EvAdminDown | Down => EvDown | Init => EvInit | Up => EvUp end.
 
 Inductive op := Recv (p : pkt) | Timeout.
 
@@ -115,6 +117,11 @@ Definition step (s : sess) (o : op) : sess :=
   end.
 
 Definition run (s : sess) (ops : list op) : sess := fold_left step ops s.
+
+(** the known-finding class: an accepted packet carrying State = AdminDown *)
+Definition rx_admindown (o : op) : bool :=
+  match o with Recv p => negb (should_discard p) && st_eqb (p_state p) AdminDown | Timeout => false end.
+Definition no_rx_admindown (ops : list op) : bool := forallb (fun o => negb (rx_admindown o)) ops.
 
 (** states after every op *)
 Fixpoint trace (s : sess) (ops : list op) : list sess :=
